@@ -9,4 +9,16 @@ NeverCrashedMidSweep == ~(res.kind = "crashed" /\ act.name = "PruneStep" /\ dirt
 NeverHeaderPruned == disk.hdr = 0..disk.height \/ disk.height < 0
 NeverTimeFloorBinds == ~(MinAge /\ act.name = "DeliverL1" /\ res.kind = "started" /\ pc.end < act.n - Retained)
 NeverL2PathPrunes == ~(act.name = "DeliverHead" /\ res.kind = "started")
+\* the windowed event index: a prune ends with the oldest retained block on the LAST / FIRST block of a
+\* window whose persisted filter exists / was just deleted; the index is rebuilt without an anchor
+\* from a block inside a window; a revert re-opens a persisted window; a prune runs before the
+\* lazy initialisation
+NeverFloorOnWindowEnd == ~(act.name = "PruneStep" /\ res.kind = "ok" /\ Oldest(disk) % W = W - 1
+                           /\ WinOf(Oldest(disk)) \in WinFroms(disk))
+NeverFloorOnWindowStart == ~(act.name = "PruneStep" /\ res.kind = "ok" /\ Oldest(disk) % W = 0 /\ Oldest(disk) > 0
+                             /\ WinOf(Oldest(disk)) \in WinFroms(disk))
+NeverWindowDeletedMidSweep == ~(act.name = "PruneStep" /\ res.kind = "step" /\ Oldest(disk) % W = 0 /\ Oldest(disk) > 0)
+NeverAnchorlessRebuild == ~(act.name = "InitFilter" /\ rf.lo > rf.from)
+NeverWindowReopened == ~(act.name = "Revert" /\ res.kind = "ok" /\ rf.from + W - 1 = act.n)
+NeverPruneBeforeInit == ~(act.name = "PruneStep" /\ ~rf.init /\ alive)
 =============================================================================
